@@ -177,6 +177,13 @@ func FuncBuilder(env *Zlisp, name string,
 	if Working {
 		DumpFunction(ZlispFunction(gen.instructions), -1)
 	}
+	// like defn: make the function known to its own body before
+	// compiling it, so that a tail self call finds out which formals
+	// are lazy (#x) instead of evaluating every argument eagerly.
+	known := gen.env.MakeFunction(gen.funcname, nargs, varargs, nil, orig)
+	known.SetFormalSymbols(argsyms)
+	gen.knownFunctions[env.MakeSymbol(funcName).number] = known
+
 	for i := len(argsyms) - 1; i >= 0; i-- {
 		gen.AddInstruction(PopStackPutEnvInstr{argsyms[i]})
 	}
